@@ -33,7 +33,7 @@ static void prop_eigen(Tape &t, Ctx &c) {
     double alpha = t.b() ? 1.0 : static_cast<double>(t.u(-3, 3)), beta = t.b() ? 0.0 : static_cast<double>(t.u(-3, 3));
     int cec = static_cast<int>(t.u(0, 2));
     unsigned ce = cec == 0 ? 12 : cec == 1 ? 4 : 3000;
-    double tol = 1e-8; const size_t maxiter = 200;
+    double tol = 1e-8; const size_t maxiter = 1000;
     c.desc << "eigen blocks b=" << B << " kind=" << bc.kind << " " << bc.family << " nb=" << bc.nb << " " << describe(A) << " incomplete=" << bc.incomplete << "/" << bc.blocks
            << " rhs=" << fk << " coarse_enough=" << ce << " alpha=" << alpha << " beta=" << beta << " A=" << dump_small(A, 8);
     c.nontrivial = bc.incomplete > 0 && bc.nb >= 2;
@@ -75,8 +75,9 @@ static void prop_eigen(Tape &t, Ctx &c) {
         std::vector<double> Yf(A.n); for (ptrdiff_t I = 0; I < nb; ++I) for (int k = 0; k < B; ++k) Yf[I * B + k] = Yb[I](k);
         require_spmv(Yf, ref, S, cb, "spmv(block_matrix<Eigen block>, Eigen block vectors)");
     }
-    // ---- solve
-    {
+    // ---- solve (convergence is demanded on the model kinds only, see c13_block.cpp)
+    c.label(bc.model() ? "model" : "non-model(truthfulness only)");
+    try {
         typedef amgcl::make_solver<amgcl::amg<EB, amgcl::coarsening::smoothed_aggregation, amgcl::relaxation::spai0>, amgcl::solver::bicgstab<EB>> Solver;
         typename Solver::params p; p.solver.tol = tol; p.solver.maxiter = maxiter; p.precond.coarse_enough = ce;
         Solver solve(Ab, p);
@@ -84,7 +85,11 @@ static void prop_eigen(Tape &t, Ctx &c) {
         auto F = ab::reinterpret_as_rhs<blk>(f); auto X = ab::reinterpret_as_rhs<blk>(x);
         size_t iters; double resid;
         std::tie(iters, resid) = solve(Ab, F, X);
-        require_truthful(c, "amg<Eigen block>+bicgstab", A, f, x, iters, resid, tol, maxiter);
+        require_truthful(c, "amg<Eigen block>+bicgstab", A, f, x, iters, resid, tol, maxiter, bc.model());
+    } catch (const vf::Fail &) { throw; }
+      catch (const std::runtime_error &e) {
+        if (!bc.model() && std::string(e.what()).find("BiCGStab") != std::string::npos) c.label("breakdown:eigen");
+        else throw;
     }
 }
 
